@@ -264,7 +264,8 @@ impl<'a> Parser<'a> {
             self.advance();
 
             if self.current_token == Token::If {
-                Some(vec![self.parse_statement()?])
+                // (not parse_statement: that would also swallow the semicolon that ends the outer statement)
+                Some(vec![Stmt::Expr(self.parse_expr(Precedence::Lowest)?)])
             } else {
                 Some(self.parse_block_statement()?)
             }
